@@ -421,7 +421,7 @@ impl System for SysC {
     fn step(&mut self, ev: &CEv) -> Vec<V> {
         let (aev, single) = match ev {
             CEv::Listen(f) => (AEv::Listen { frames: f.clone(), fault_at: None }, f.len() == 1),
-            CEv::Send { rxc1, rxc2, rx1, rx2 } => (AEv::Send { confirmed: false, port: 1, len: 1, script: Script { rx1: rx1.clone(), rx2: rx2.clone(), rxc1: rxc1.clone(), rxc2: rxc2.clone(), fault_at: None, fault_low_power: None } }, false),
+            CEv::Send { rxc1, rxc2, rx1, rx2 } => (AEv::Send { confirmed: false, port: 1, len: 1, script: Script { rx1: rx1.clone(), rx2: rx2.clone(), rxc1: rxc1.clone(), rxc2: rxc2.clone(), ..Default::default() } }, false),
         };
         match self.core.apply(&aev) {
             Some(st) => self.check(&st, single),
